@@ -20,8 +20,9 @@ def key_is_reference_spelling(e: Optional[ast.AST]) -> bool:
     return False
 
 
-def check_site(ctx, rule: str, fn: ast.AST, site: sub.Site, what: str) -> bool:
-    """Apply the SUB rule to one site; returns ok."""
+def check_site(ctx, rule: str, fn: ast.AST, site: sub.Site, what: str, word_boundary_ok: Optional[str] = None) -> bool:
+    """Apply the SUB rule to one site; returns ok.  A plain \\b left anchor is accepted only where ``word_boundary_ok``
+    gives the (frozen) reason why no key can occur right after '.', '#' or '-' in the text being rewritten."""
     if site.kind == "plain":
         return ctx.ob(rule, site.call, False,
                       "%s is substituted with str.replace(%s, ...): unanchored, so a reference whose spelling is a "
@@ -32,8 +33,14 @@ def check_site(ctx, rule: str, fn: ast.AST, site: sub.Site, what: str) -> bool:
     for (p, pfn, binds) in pats:
         info = sub.pattern_anchoring(p, pfn, binds)
         ok = bool(info["escaped_keys"]) and info["left"] and info["right"] and not info["raw_interpolation"]
+        weak = ok and info.get("left_kind") != "strong"
+        if weak and not word_boundary_ok:
+            ok = False
         ok_all = ok_all and ok
         why = []
+        if weak and not word_boundary_ok:
+            why.append("the left anchor is only a word boundary: '.', '#' and '-' are legal inside references, so the key also "
+                       "matches inside 'stage1.<key>', '0#<key>' or 'x-<key>' (e.g. inside text inserted by an earlier substitution)")
         if not info["escaped_keys"] or info["raw_interpolation"]:
             why.append("the reference text is interpolated into the regular expression without re.escape")
         if not info["left"]:
@@ -41,7 +48,8 @@ def check_site(ctx, rule: str, fn: ast.AST, site: sub.Site, what: str) -> bool:
         if not info["right"]:
             why.append("no right anchor")
         ctx.ob(rule, site.call, ok,
-               ("%s is substituted through a boundary-anchored, escaped pattern (%s)" % (what, info["shape"])) if ok else
+               ("%s is substituted through a boundary-anchored, escaped pattern (%s)%s" % (
+                   what, info["shape"], "; word-boundary anchor accepted: " + word_boundary_ok if weak else "")) if ok else
                ("%s is substituted through pattern %s: %s" % (what, info["shape"], "; ".join(why))),
                construct="%s / pattern %s" % (short(site.call, 100), info["shape"]))
     return ok_all
